@@ -110,7 +110,7 @@ Definition spec (c : case) : bool :=
 
 (** Non-trivial: the executed program has a return or goto inside a sequence
     that is itself entered by jump/goto or used as a plain action ($seq), or a wrapper that runs its
-    continuation twice; rule text with a '!' or surplus blanks. *)
+    continuation twice or keeps it for later; rule text with a '!' or surplus blanks. *)
 Fixpoint has_ret_goto (rs : rules) : bool :=
   match rs with
   | RNil => false
@@ -127,7 +127,7 @@ Fixpoint deep (rs : rules) : bool :=
   | RCons (Rule _ a) rest =>
     match a with
     | Jump t | Goto t | Call t => has_ret_goto t || deep t || deep rest
-    | Wrap w => (2 <=? w mod 3) || deep rest
+    | Wrap w => (2 <=? w mod 3) || (18 <=? w) || deep rest
     | _ => deep rest
     end
   end.
